@@ -389,6 +389,7 @@ package raft
 //@   ensures  stale_term_ignored: req.Term < old(r.currentTerm) ==> !voteResp(rpc).Granted && r.currentTerm == old(r.currentTerm) &&
 //@              r.state == old(r.state) && voteTerm(r) == old(voteTerm(r)) && r.stable.val == old(r.stable.val) && r.stable.has == old(r.stable.has)
 //@   ensures  term_change_resets_role: r.currentTerm != old(r.currentTerm) ==> r.state == Follower
+//@   ensures  term_change_clears_leader: r.currentTerm != old(r.currentTerm) ==> r.leaderAddr == "" && r.leaderID == ""
 //@   ensures  refuse_while_leader_known: old(r.leaderAddr) != "" && old(r.leaderAddr) != decodePeerOf(candOf(req)) && !req.LeadershipTransfer ==> !voteResp(rpc).Granted
 //@   ensures  log_untouched: r.lastLogIndex == old(r.lastLogIndex) && r.lastLogTerm == old(r.lastLogTerm) && r.commitIndex == old(r.commitIndex) && r.lastApplied == old(r.lastApplied)
 
@@ -602,6 +603,7 @@ package raft
 //@ func (s *followerReplication) notifyAll
 //@   requires nonnil: s != nil && s.notify != nil
 //@   requires futures_valid: forall w *verifyFuture :: dom(s.notify, w) ==> w != nil && w.votes < MaxInt63
+//@   modifies s.notify, allof("H.verifyFuture.votes"), allof("H.verifyFuture.notifyCh"), allof("CH.sent.PverifyFuture"), allof("CH.last.PverifyFuture")
 //@   ensures  cleared: forall w *verifyFuture :: !dom(s.notify, w)
 //@   ensures  fresh_set: s.notify != nil && s.notify != old(s.notify)
 //@   at call (*verifyFuture).vote#1 assert deregistered_before_vote: forall w *verifyFuture :: !dom(s.notify, w)
@@ -734,3 +736,21 @@ package raft
 //@              r.logs == old(r.logs) && r.logs.has == old(r.logs.has) && r.logs.ent == old(r.logs.ent) && r.leaderState.commitment == old(r.leaderState.commitment) &&
 //@              r.leaderState.commitment.matchIndexes == old(r.leaderState.commitment.matchIndexes) && r.localID == old(r.localID) &&
 //@              (forall id ServerID :: r.leaderState.commitment.matchIndexes[id] == old(r.leaderState.commitment.matchIndexes[id]))
+
+// ---------------------------------------------------------------------------
+// Heartbeats (sender-side obligation behind the follower's commit rule; C02/C05/C09)
+
+//@ interface Transport.AppendEntries(id, target, args, resp)
+//@   requires nonnil: args != nil && resp != nil
+//@   modifies *resp
+
+//@ func cappedExponentialBackoff
+//@   trusted pure arithmetic on durations
+//@   modifies nothing
+
+//@ func (r *Raft) heartbeat
+//@   requires nonnil: r != nil && s != nil && r.trans != nil && r.logger != nil && typeis(r.conf.v, Config) && s.notify != nil
+//@   requires futures_valid: forall w *verifyFuture :: dom(s.notify, w) ==> w != nil && w.votes < MaxInt63
+//@   at call Transport.AppendEntries#1 assert heartbeat_carries_no_commit_index: arg2.PrevLogEntry == 0 && arg2.PrevLogTerm == 0 &&
+//@              arg2.LeaderCommitIndex == 0 && len(arg2.Entries) == 0 && arg2.Term == s.currentTerm
+//@   loop 1 invariant notify_valid: s.notify != nil && (forall w *verifyFuture :: dom(s.notify, w) ==> w != nil && w.votes < MaxInt63)
